@@ -85,7 +85,11 @@ pub fn route_of(n: &Node) -> Route {
     }
 }
 pub fn is_random_op(op: &Operation) -> bool {
-    matches!(op, Operation::Random(_) | Operation::RandomPermutation(_) | Operation::CuckooToPermutation | Operation::DecomposeSwitchingMap(_))
+    matches!(op, Operation::Random(_) | Operation::RandomPermutation(_))
+}
+/// operations computing from their dependencies and from the evaluating party's own randomness
+pub fn is_randdep_op(op: &Operation) -> bool {
+    matches!(op, Operation::CuckooToPermutation | Operation::DecomposeSwitchingMap(_))
 }
 pub fn sends_of(n: &Node) -> Vec<(u64, u64)> {
     n.get_annotations().unwrap_or_default().iter().filter_map(|a| if let NodeAnnotation::Send(s, r) = a { Some((*s, *r)) } else { None }).collect()
@@ -166,7 +170,7 @@ pub fn certs(g: &Graph) -> Vec<(u64, u64)> {
     }
     let mut res = vec![];
     for n in nodes.iter() {
-        if !is_random_op(&n.get_operation()) {
+        if !is_random_op(&n.get_operation()) && !is_randdep_op(&n.get_operation()) {
             continue;
         }
         let mut queue = std::collections::VecDeque::new();
